@@ -11,7 +11,7 @@
      clean_core os p the lazy buffer Clean leaves after its loop on the volume-less path p
      win_pre v b     what Go's post-pass prepends ("", ".\" or "\."), read off that buffer
      initwO/lastwO   a string cut after its last separator;  glue b e: how joinWindows appends e to b *)
-From Avfs Require Import Base PathModel PathSpec PathProofs PathCleanProofs PathWinProofs PathCleanGen PathWinMore.
+From Avfs Require Import Base PathModel PathSpec PathProofs PathCleanProofs PathWinProofs PathCleanGen PathWinMore PathRelWin.
 
 (* ---- the loop of Clean, both OS types ----------------------------------------- *)
 (* after the loop (and the "." for an empty result) the lazy buffer holds exactly Pike's rules on the
@@ -192,3 +192,29 @@ Example C13_split_dir_base_windows_examples :
   /\ dir Windows [92;92;104;92;115]%N = [92;92;104;92;115]%N
   /\ base Windows [67;58]%N = [92]%N /\ dir Windows [67;58]%N = [67;58;46]%N.
 Proof. exact split_dir_base_windows_examples. Qed.
+
+(* ---- (5) Rel: when the element loop does not end -------------------------------------------- *)
+(* both OS types, arbitrary strings: the fuel S (S (len base + len targ)) of the model runs out exactly
+   when the two strings "meet": they agree element by element (sameWord; EqualFold on Windows) until
+   BOTH are exhausted, an exhausted string counting as empty elements *)
+Theorem C13_rel_loop_none_iff : forall os base targ,
+  rel_loop os base targ (S (S (length base + length targ))) 0 0 0 0 = None <-> meet os base targ.
+Proof. exact rel_loop_none_iff. Qed.
+
+(* the Windows Rel does not return (RelLoop) on exactly these inputs - PARTIAL for Rel as a whole: the
+   value of Rel on the other inputs (soundness w.r.t. Join) is not proved for Windows.  rel_base_w /
+   rel_targ_w are Clean(base) / Clean(targ) without their volumes, the base "." read as "" and an empty
+   base with a UNC or device volume as "\" (known finding C13-rel-unc-root-loop, as Go's filepath.Rel) *)
+Theorem C13_rel_windows_loop_iff : forall b t,
+  rel Windows b t = RelLoop <->
+  same_word Windows (clean Windows t) (clean Windows b) = false
+  /\ slashed_w (rel_base_w b) = slashed_w (rel_targ_w t)
+  /\ same_word Windows (volume_name Windows b) (volume_name Windows t) = true
+  /\ meet Windows (rel_base_w b) (rel_targ_w t).
+Proof. exact rel_windows_loop_iff. Qed.
+
+Example C13_rel_windows_loop_example :
+  rel Windows [92;92;97;92;98]%N [92;92;97;92;98;92]%N = RelLoop
+  /\ meet Windows (rel_base_w [92;92;97;92;98]%N) (rel_targ_w [92;92;97;92;98;92]%N)
+  /\ rel Windows [67;58;92;97;92;98]%N [67;58;92;65;92;99]%N = RelOk [46;46;92;99]%N.
+Proof. exact rel_windows_loop_example. Qed.
